@@ -21,6 +21,7 @@ func init() {
 			"R1": "argument of HealthChecker.Check == result #0 of context.WithTimeout(_, 100ms)",
 			"R2": "threshold expression == select[3 if MCF <= 0 | MCF otherwise] over cfg.MaxConsecutiveFailures",
 			"R3": "unhealthy edge: counter.Add(1); `threshold <= count` (non-strict) true edge: may-demote call then return; false edge: no store operation before the next tick; healthy edge: counter.Store(0)",
+			"R6": "shared with C03-R9: the loop that runs the health check runs under the term context (no loop of an earlier term counts failures into a later term)",
 			"R4": "counter.Store(0) in a claim-set unit under the election mutex, or in a block of the refresh loop function that is not in the loop",
 			"R5": "see C08-R2/R3 (the health demotion is a call of a may-demote function)",
 		},
@@ -199,6 +200,8 @@ func checkC12(c *Ctx) {
 			}
 		}
 	})
+	// R6: shared with C03-R9: no loop of an earlier term counts into this term's counter
+	termLoopRule(c, "R6")
 	if perTerm != "" {
 		c.ok("R4", "health failures are counted per term", add, "%s", perTerm)
 	} else {
